@@ -818,7 +818,7 @@ def real_class_of(v):
         return int
     if isinstance(v, SStr):
         return bytes if v.is_bytes else str
-    if isinstance(v, SBytes):
+    if isinstance(v, (SBytes, SHash)):
         return bytes
     if isinstance(v, FileObj):
         import io
